@@ -143,6 +143,22 @@ func mutateBytes(src string, r *kit.Rand) (string, string) {
 	}
 }
 
+
+// validLayouts are VALID sources in layouts the grammar generator produces only rarely
+// (a few per thousand programs): comments and line breaks between the closing brace of a nested
+// struct and the field's tag, tags on their own line, comment-only struct bodies. They are
+// checked with the full oracle of valid sources (format succeeds, meaning preserved, idempotent).
+var validLayouts = []string{
+	"type Outer {\n\tInner {\n\t\tA int `json:\"a\"`\n\t} // the nested part\n\t`json:\"inner\"`\n\tB string `json:\"b\"`\n}\n",
+	"type (\n\tOuter {\n\t\tItems []{\n\t\t\tID int64 `json:\"id\"`\n\t\t} // one entry per item\n\t\t`json:\"items,optional\"`\n\t}\n)\n",
+	"type Outer {\n\tMeta {} // nothing yet\n\t`json:\"meta\"`\n\tB string `json:\"b\"`\n}\n",
+	"type Outer {\n\tInner {\n\t\tA int `json:\"a\"`\n\t}\n\t`json:\"inner\"`\n}\n",
+	"type Outer {\n\tM map[string]{\n\t\tA int `json:\"a\"`\n\t} // per key\n\t`json:\"m\"`\n\tLast bool `json:\"last\"`\n}\n",
+	"type Outer {\n\tArr [3]{\n\t\tA int `json:\"a\"`\n\t} /* three of them */ `json:\"arr\"`\n}\n",
+	"type Outer {\n\tInner {\n\t\tDeep {\n\t\t\tA int `json:\"a\"`\n\t\t} // deep\n\t\t`json:\"deep\"`\n\t} // inner\n\t`json:\"inner\"`\n}\n",
+	"syntax = \"v1\"\n\ntype Req {\n\tInner {\n\t\tA int `json:\"a\"`\n\t} // c\n\t`json:\"inner\"`\n}\n\nservice x {\n\t@handler h\n\tpost /a (Req)\n}\n",
+}
+
 // handWritten are small sources aimed at edges of scanner and parser (all
 // invalid or degenerate).
 var handWritten = []string{
